@@ -646,7 +646,7 @@ class ExprGen:
         elif op in ("+", "-"):
             if abs(lv) > (1 << 30) and rng.random() < 0.8:
                 # stay in range: move towards zero
-                room = INT_MAX - abs(lv)
+                room = max(0, INT_MAX - abs(lv))
                 v = rng.randint(0, min(room, 1000)) if rng.random() < 0.5 else rng.choice([0, 1, room])
                 sign = 1 if ((lv < 0) == (op == "+")) else -1
                 return self.value_leaf(sign * v if rng.random() < 0.8 else -sign * min(abs(lv), v))
